@@ -31,5 +31,13 @@ theorem insert_guard_translated (sf : ScaleFn α) (s : St α) (x w : α) (hx : K
 /-- a non-finite value or weight is the assertion panic -/
 theorem insert_guard_not_finite (x w : α) (h : KOps.isFinite x = false ∨ KOps.isFinite w = false) :
     td_insert_guard x w = Flow.panic := td_insert_guard_not_finite x w h
+/-- the range assertion of the public `quantile` as translated is the guard of the model's `quantile` -/
+theorem quantile_guard_translated (sf : ScaleFn α) (s : St α) (q : α) :
+    td_quantile_guard q = Flow.panic ↔ (TDigest.quantile sf s q).2 = QRes.panic ∧ ¬ (0 ≤ q ∧ q ≤ 1) := by
+  rw [td_quantile_guard_eq]
+  unfold TDigest.quantile
+  by_cases h : 0 ≤ q ∧ q ≤ 1
+  · simp [h]
+  · simp [h]
 
 end Pds.Tie.C16
